@@ -84,7 +84,6 @@ Section Graph.
   Definition get_num_vertices (starts ends : list label) : nat := length (dedup [] (starts ++ ends)).
 End Graph.
 
-Arguments lout {_}. Arguments lin {_}.
 
 (* weights -> multiplicities: `if (weight > EPS_PRECISION) for (weight_t w = 0; w < weight; w++)` *)
 Definition count_int (w : Z) : nat := Z.to_nat w.     (* integer weight: w > 1e-6 iff w >= 1 *)
